@@ -1,4 +1,5 @@
 import Model.Results
+import Proofs.Adopt
 import Proofs.Col
 /-
 C18 — Result blocks bind only to compatible targets; mismatches are errors.
@@ -189,3 +190,50 @@ theorem C18_success_sound_step (x : Ext) (cfg : Cfg) (v rows n : Nat) (t : Targe
           · simp at h
           · simp [hc] at h
       · simpa using hc
+
+
+/-! ## Adoption of the server's type parameters by inferable targets (`Infer` on typed columns) -/
+section Adoption
+open Model.Infer Model.Adopt Proofs.Adopt
+
+/-- **`cutTypes` cuts exactly at the first top-level comma**: if `K` has no cut point and leaves the scanner at
+nesting depth 0 outside quotes, then `K,V` is cut into `K` and `V` — whatever `V` is -/
+theorem C18_cutTypes_splits (K V : Bytes) (h : scan K 0 false false = some (0, false, false)) :
+    cutTypes (K ++ comma :: V) = (K, V, true) := by
+  unfold cutTypes
+  rw [cutTypesGo_scan K 0 false false 0 false false (comma :: V) [] h]
+  rw [cutTypesGo]
+  simp [show (comma == quote) = false by decide, show (comma == lparen) = false by decide,
+    show (comma == rparen) = false by decide]
+
+/-- a string without a cut point is returned whole, "not found" -/
+theorem C18_cutTypes_none (K : Bytes) (s : Int × Bool × Bool) (h : scan K 0 false false = some s) :
+    cutTypes K = (K, [], false) := by
+  unfold cutTypes
+  have := cutTypesGo_scan K 0 false false s.1 s.2.1 s.2.2 [] [] (by simpa using h)
+  simp only [List.append_nil] at this
+  rw [this, cutTypesGo]; simp
+
+/-- an enum target adopts the server's definition verbatim, whatever it held before -/
+theorem C18_adopt_enum_verbatim (x : IExt) (a t : Bytes) (c : TCol) (h : adopt x (.enum a) t = some c) :
+    c = .enum t ∧ c.reported = t := by
+  simp only [adopt, adoptEnum] at h
+  split at h
+  · exact absurd h (by simp)
+  · split at h
+    · exact absurd h (by simp)
+    · split at h
+      · cases h; exact ⟨rfl, rfl⟩
+      · exact absurd h (by simp)
+
+/-- nothing of the previous enum definition / time zone survives: adoption depends on the server's type only -/
+theorem C18_adopt_history_free (x : IExt) (a b t : Bytes) (l1 l2 : Option Bytes) :
+    adopt x (.enum a) t = adopt x (.enum b) t ∧ adopt x (.dateTime l1) t = adopt x (.dateTime l2) t := by
+  constructor <;> simp [adopt]
+
+/-! non-vacuity: an enum definition with a parenthesis, an escaped quote and a comma inside its names has no cut point;
+`Map(Enum8('a,b' = 1), DateTime64(3, 'UTC'))` is cut at the comma between key and value type -/
+example : scan [69, 110, 117, 109, 56, 40, 39, 97, 40, 39, 32, 61, 32, 49, 44, 32, 39, 105, 116, 92, 39, 115, 44, 32, 120, 39, 32, 61, 32, 50, 41] 0 false false = some (0, false, false) := by decide
+example : cutTypes ([69, 110, 117, 109, 56, 40, 39, 97, 44, 98, 39, 32, 61, 32, 49, 41] ++ comma :: [32, 68, 97, 116, 101, 84, 105, 109, 101, 54, 52, 40, 51, 44, 32, 39, 85, 84, 67, 39, 41]) = ([69, 110, 117, 109, 56, 40, 39, 97, 44, 98, 39, 32, 61, 32, 49, 41], [32, 68, 97, 116, 101, 84, 105, 109, 101, 54, 52, 40, 51, 44, 32, 39, 85, 84, 67, 39, 41], true) := by decide
+
+end Adoption
